@@ -315,6 +315,7 @@ class Engine:
         self.seed = 0
         self.cur_model = None; self.model_upto = 0; self.n_asserted = 0; self._pc = []
         self.used_fns = {}
+        self._zst_closures = {}
         self.used_models = set()
         self.res_cache = {}
         self.fuel_limit = 100000
@@ -998,6 +999,17 @@ class Engine:
             # closures called with a tupled argument list ("rust-call" ABI) are untupled by the callers in this file
             raise Unsupported('arity mismatch calling %s: %d vs %d' % (fn.name, len(args), fn.nargs))
         for i, a in enumerate(args): loc[i+1] = a
+        # capture-less closures are zero-sized: MIR never assigns their local before borrowing it
+        zc = self._zst_closures.get(fn)
+        if zc is None:
+            zc = []
+            for i, t in fn.ltypes.items():
+                m = re.match(r'^\{closure@([^}]*)\}$', t.strip()) if isinstance(t, str) else None
+                if m and i > fn.nargs: zc.append((i, m.group(1)))
+            self._zst_closures[fn] = zc
+        for i, span in zc:
+            try: loc[i] = Closure(self.closure_fn(fn.crate, span), [])
+            except Unsupported: pass
         self.depth += 1
         if self.depth > self.max_depth: self.max_depth = self.depth
         if self.depth > 400: raise Panic('stack overflow (recursion depth > 400)')
@@ -1200,6 +1212,15 @@ class Engine:
             return self.call(fr, name, list(args))
         if isinstance(f, PyFn):
             return f.f(self, *args)
+        if isinstance(f, Agg) and not f.slots and re.match(r'^[a-z_][A-Za-z0-9_:]*$', f.ty or ''):
+            # a bare fn item that went through a promoted constant (`&format_field`): its name is all that is left
+            class _Fr: pass
+            fr = _Fr(); fr.fn = _Fr(); fr.fn.crate = getattr(self, '_promoted_crate', None) or getattr(self, '_call_crate', None); fr.subst = None
+            crates = sorted({fn.crate for fn in self.prog.all})
+            for crate in [c for c in [fr.fn.crate] if c] + [c for c in crates if c != fr.fn.crate]:
+                fr.fn.crate = crate
+                if self.resolve_local(f.ty, crate) is not None: return self.call(fr, f.ty, list(args))
+            raise Unsupported('call of fn item %s: not found in any crate' % f.ty)
         raise Unsupported('call of ' + repr(f))
 
     def call_path(self, crate, callee, args):
